@@ -828,11 +828,13 @@ void gen_foldcmp(int fi) {
 }
 
 /* query alphabet enumeration (C10 and the query side of C02/C05): explicit contents */
+static const unsigned char *q_alpha; static int q_na;     /* set by gen_query_alias for its second alphabet */
 void gen_query(int fi) {
     const Fn *f = &fntab[fi];
-    static const unsigned char alpha_q[] = { 'a', 0x80, 'A', '_', '1', ' ', 'b' };    /* '_' sorts between the upper- and the lower-case letters */
-    int na = g_tier ? 6 : 5;
-    int maxlen = g_tier ? 4 : 3;
+    static const unsigned char alpha_std[] = { 'a', 0x80, 'A', '_', '1', ' ', 'b' };    /* '_' sorts between the upper- and the lower-case letters */
+    const unsigned char *alpha_q = q_alpha ? q_alpha : alpha_std;
+    int na = q_alpha ? q_na : g_tier ? 6 : 5;
+    int maxlen = q_alpha ? 3 : g_tier ? 4 : 3;
     int has_src = has_tok(f, "S") || has_tok(f, "T");
     int has_l = has_tok(f, "l"), has_c = has_tok(f, "c");
     int src_str = has_tok(f, "S");
@@ -903,6 +905,16 @@ void gen_query(int fi) {
             }
         }
     }
+}
+
+/* the same enumeration over bytes that differ only in the top bit ('a'/0xE1, 'b'/0xE2) for the byte-string search and set functions: a
+ * table- or mask-based scan that drops the top bit answers wrongly only when the two operands hold such a pair */
+void gen_query_alias(int fi) {
+    static const char *const names[] = { "strspn_s", "strcspn_s", "strpbrk_s", "strstr_s", "strchr_s", "strrchr_s", "strcmp_s", "memchr_s", "memrchr_s", 0 };
+    static const unsigned char al[] = { 'a', 0xE1, 'b', 0xE2 };
+    int hit = 0; for (int i = 0; names[i]; i++) if (!strcmp(fntab[fi].name, names[i])) hit = 1;
+    if (!hit) return;
+    q_alpha = al; q_na = g_tier ? 4 : 3; gen_query(fi); q_alpha = 0;
 }
 
 
@@ -1064,6 +1076,7 @@ int main(int argc, char **argv) {
         else gen_generic(i);
         if ((fntab[i].flags & F_QRY) && (P == 2)) gen_query(i);
         if (P == 1 || P == 2 || P == 6 || P == 12) gen_prims(i);
+        if (P == 10) gen_query_alias(i);
         if (P == 10 || P == 2) gen_longcmp(i);
         if (P == 10) gen_signcmp(i);
         if (P == 10 || P == 2) gen_longsearch(i);
